@@ -252,6 +252,35 @@ def data_word(d, i):
     return d["mem"].load(d["off"] + bv(i))
 
 
+_MEM_RANGES = {
+    "mload": lambda a: [(a[0], 32)], "mstore": lambda a: [(a[0], 32)], "mstore8": lambda a: [(a[0], 1)], "mcopy": lambda a: [(a[0], a[2]), (a[1], a[2])],
+    "calldatacopy": lambda a: [(a[0], a[2])], "codecopy": lambda a: [(a[0], a[2])], "returndatacopy": lambda a: [(a[0], a[2])], "extcodecopy": lambda a: [(a[1], a[3])],
+    "sha3": lambda a: [(a[0], a[1])], "keccak256": lambda a: [(a[0], a[1])], "log0": lambda a: [(a[0], a[1])], "log1": lambda a: [(a[0], a[1])], "log2": lambda a: [(a[0], a[1])],
+    "log3": lambda a: [(a[0], a[1])], "log4": lambda a: [(a[0], a[1])], "call": lambda a: [(a[3], a[4]), (a[5], a[6])], "callcode": lambda a: [(a[3], a[4]), (a[5], a[6])],
+    "staticcall": lambda a: [(a[2], a[3]), (a[4], a[5])], "delegatecall": lambda a: [(a[2], a[3]), (a[4], a[5])], "create": lambda a: [(a[1], a[2])], "create2": lambda a: [(a[1], a[2])],
+    "return": lambda a: [(a[0], a[1])], "revert": lambda a: [(a[0], a[1])],
+}
+MEM_LIMIT = 2**32
+
+
+def mem_out_of_gas(op, a):
+    """condition under which the memory range(s) the operation touches lie beyond 2**32 bytes: expanding memory that far costs more
+    gas than any block provides, so the operation is an exceptional halt (out of gas).  None when the operation touches no memory"""
+    f = _MEM_RANGES.get(op)
+    if f is None:
+        return None
+    conds = []
+    for off, ln in f(a):
+        off, ln = bv(off), bv(ln)
+        c = z3.And(ln != 0, z3.Or(z3.UGE(off, BV(MEM_LIMIT)), z3.UGE(ln, BV(MEM_LIMIT))))
+        c = z3.simplify(c)
+        if not z3.is_false(c):
+            conds.append(c)
+    if not conds:
+        return None
+    return z3.Or(*conds) if len(conds) > 1 else conds[0]
+
+
 MEM_TOUCHING = {"mload", "mstore", "mstore8", "mcopy", "calldatacopy", "codecopy", "extcodecopy", "returndatacopy", "sha3", "keccak256", "log0", "log1", "log2", "log3", "log4",
                 "call", "staticcall", "delegatecall", "callcode", "create", "create2", "return", "revert"}
 
@@ -391,7 +420,8 @@ def exec_op(op, a, w):
             w2 = w2.replace(storage=z3.Array("storage_after_call" + k, W, W), transient=z3.Array("transient_after_call" + k, W, W))
         # copy min(rl, rsize) bytes of return data to memory
         cnt = z3.If(z3.ULT(rsize, bv(rl)), rsize, bv(rl))
-        w2 = w2.replace(mem=w2.mem.copy_from(bv(ro), lambda i: z3.Select(rdata, i), cnt))
+        env.assumptions.append(z3.ULT(rsize, BV(MEM_LIMIT)))  # return data is produced in the callee's memory: bounded like memory
+        w2 = w2.replace(mem=w2.mem.copy_from(bv(ro), lambda i: z3.Select(rdata, i), cnt), pc=z3.And(w2.pc, z3.ULT(rsize, BV(MEM_LIMIT))))
         return ok, w2
     if op in ("create", "create2"):
         k = f"!{w.ncalls + 1}{env.tag}"
